@@ -227,7 +227,11 @@ func (c *Cluster) execOp(op string) {
 		}
 	case "snapshot":
 		if n := c.nodeArg(f[1]); n != nil {
-			c.snapshotNode(n)
+			back := uint64(0)
+			if len(f) > 2 {
+				back = atou(f[2])
+			}
+			c.snapshotNode(n, back)
 		}
 	case "compact":
 		if n := c.nodeArg(f[1]); n != nil {
